@@ -279,4 +279,7 @@ func runC12(c *report.Ctx) {
 			}
 		}
 	}
+
+	// ---- restore / issue coupling ---------------------------------------------------------------------------
+	ruleGapWindowExtends(c)
 }
